@@ -196,7 +196,7 @@ func c11GenBoolish(t *rapid.T, label string) (interface{}, bool) {
 
 func c11GenTags(t *rapid.T, label string) map[string]interface{} {
 	tg := map[string]interface{}{}
-	for _, k := range []string{"t1", "t2"} {
+	for _, k := range []string{"t1", "t2", "t.3"} {
 		if v, ok := c11GenBoolish(t, label+k); ok {
 			tg[k] = v
 		}
@@ -292,8 +292,21 @@ func c11GenCase(t *rapid.T) c11Case {
 		}
 		user["global"] = ug
 	}
+	// a switch among the globals (conditions may name it): set at the top and/or inside a subchart's section, where it
+	// holds for that subchart and everything below it
+	if v, ok := c11GenBoolish(t, "userGlobalOn"); ok {
+		ug, _ := user["global"].(map[string]interface{})
+		if ug == nil {
+			ug = map[string]interface{}{}
+		}
+		ug["on"] = v
+		user["global"] = ug
+	}
 	for _, d := range root.Deps {
 		sec := map[string]interface{}{}
+		if v, ok := c11GenBoolish(t, "user"+d.eff()+"GlobalOn"); ok && rapid.Bool().Draw(t, "user"+d.eff()+"GlobalOnSet") {
+			sec["global"] = map[string]interface{}{"on": v}
+		}
 		if v, ok := c11GenBoolish(t, "user"+d.eff()+"enabled"); ok {
 			sec["enabled"] = v
 		}
@@ -328,8 +341,8 @@ func c11StripEnable(x *c11Chart) {
 
 func c11GenEnableRules(t *rapid.T, d *c11Chart, label string) {
 	e := d.eff()
-	d.Cond = rapid.SampledFrom([]string{"", "", e + ".enabled", e + ".enabled", "flag", e + ".enabled,flag", "missing.path," + e + ".enabled", e + ".own," + e + ".enabled", "flag," + e + ".enabled"}).Draw(t, label+"cond")
-	d.Tags = rapid.SliceOfNDistinct(rapid.SampledFrom([]string{"t1", "t2"}), 0, 2, func(s string) string { return s }).Draw(t, label+"tags")
+	d.Cond = rapid.SampledFrom([]string{"", "", e + ".enabled", e + ".enabled", "flag", e + ".enabled,flag", "missing.path," + e + ".enabled", e + ".own," + e + ".enabled", "flag," + e + ".enabled", "global.on", "global.on," + e + ".enabled"}).Draw(t, label+"cond")
+	d.Tags = rapid.SliceOfNDistinct(rapid.SampledFrom([]string{"t1", "t2", "t.3"}), 0, 2, func(s string) string { return s }).Draw(t, label+"tags")
 	sort.Strings(d.Tags)
 }
 
@@ -798,7 +811,7 @@ func c11Prop(t *rapid.T) {
 }
 
 func TestC11(t *testing.T) {
-	evid.Extra("rule", "C11: dependency trees up to depth three (root -> s1,s2,s3 -> g1,g2 -> h1) with aliases, the same chart declared twice under two aliases, condition lists (paths missing, non-boolean, boolean, several paths) and tags in chart defaults and user values, own 'enabled'/'flag' defaults in subcharts, parent sections, global tables at several levels, and a rejecting values.schema.json on random dependencies; every chart carries a probe template (toJson .Values), a hook and a crds/ file; every non-global leaf is a unique sentinel. Rendered through a client-only dry-run install. Oracle: the set of rendered probes, hooks and CRDs equals the set of enabled charts computed by an independent implementation of the documented rule (first condition path resolving to a boolean in the parent's effective values decides, else disabled iff some tag false and none true); an enabled chart's rejecting schema rejects, a disabled one's does not; each chart's probe equals its reference scope leaf by leaf; no foreign non-global sentinel appears in any probe; no default of a disabled chart appears anywhere; changing one sibling's user section leaves every other chart's probe unchanged. Non-trivial = at least two siblings or depth >= 2, with a condition or tag on some dependency; distinct by (tree, user values).")
+	evid.Extra("rule", "C11: dependency trees up to depth three (root -> s1,s2,s3 -> g1,g2 -> h1) with aliases, the same chart declared twice under two aliases, condition lists (paths missing, non-boolean, boolean, several paths, a switch among the globals set at the top or inside a subchart's section) and tags (one of the names contains a dot) in chart defaults and user values, own 'enabled'/'flag' defaults in subcharts, parent sections, global tables at several levels, and a rejecting values.schema.json on random dependencies; every chart carries a probe template (toJson .Values), a hook and a crds/ file; every non-global leaf is a unique sentinel. Rendered through a client-only dry-run install. Oracle: the set of rendered probes, hooks and CRDs equals the set of enabled charts computed by an independent implementation of the documented rule (first condition path resolving to a boolean in the parent's effective values decides, else disabled iff some tag false and none true); an enabled chart's rejecting schema rejects, a disabled one's does not; each chart's probe equals its reference scope leaf by leaf; no foreign non-global sentinel appears in any probe; no default of a disabled chart appears anywhere; changing one sibling's user section leaves every other chart's probe unchanged. Non-trivial = at least two siblings or depth >= 2, with a condition or tag on some dependency; distinct by (tree, user values).")
 	evid.Extra("assumptions", []string{"tags are read from the top-level tags table (where the documentation says they must be set)", "import-values is not generated here (C20 covers its malformed forms)"})
 	rapid.Check(t, c11Prop)
 }
